@@ -225,6 +225,9 @@ class MergeExec:
     def run(self, fn, args, guard=None):
         guard = z3.BoolVal(True) if guard is None else guard
         self.functions.add(fn.name)
+        if getattr(fn, 'nargs', len(args)) != len(args):
+            from .interp import Unsupported
+            raise Unsupported(f'signature of {fn.name} changed: {fn.nargs} parameters in the MIR of the working tree, the harness passes {len(args)}')
         succ = {}
         for b, stmts in fn.blocks.items():
             if b in fn.cleanup: continue
